@@ -189,9 +189,24 @@ class AllCallbacksMonitor(ConvergenceMonitor):
     """C12: in fault-free runs every submission's callback has fired exactly once by the end of
     the closing run (exactly-once is enforced on every step by the C02 clause)."""
 
+    def init_ghost(self, model):
+        return ()
+
+    def on_step(self, model, pre_w, post_w, nid, ev, pre, post, out, obs, exc, g):
+        # a command submitted on a node that is cut off from the node it takes for the leader (or knows no leader) is
+        # outside the premise (fault-free): what happens to its callback is not judged here
+        if ev[0] in ('S', 'SM') and pre.alive:
+            ld = pre.leader
+            if ld is None or (ld != nid and ld not in pre.connected):
+                return g + (pre_w.nsub,)
+        return g
+
     def final(self, model, w0, w, group):
         cbs = self.cbs_of(model, w)
+        exempt = set(w0.ghost[model.monitors.index(self)])
         for sid in range(w0.nsub):
+            if sid in exempt:
+                continue
             if sid not in cbs and ('z', sid) not in cbs and ('m', sid) not in cbs and ('v', sid) not in cbs:
                 return core.Violation('%s callback of submission %d never fired although the cluster is healthy and has moved on' % (
                     self.prop, sid), sig='callback-lost')
